@@ -2,6 +2,7 @@ package main
 
 import (
 	"fmt"
+	"regexp"
 	"strings"
 
 	"golang.org/x/tools/go/ssa"
@@ -165,13 +166,14 @@ func c12(c *Ctx) {
 		short := w.fn[strings.LastIndex(w.fn, ".")+1:]
 		gcall := p.PlainCalls("litefs.(*GuardSet).Guard")
 		c.ExpectAll("owners/"+short+"/own-guard-set", c.CallArgs(w.fn, gcall, 0), pat("litefs.(*DB).CreateGuardSetIfNotExists(p0, p2)"), 1, "DB."+short+" works on the requesting owner's guard set, created when the owner has none yet", "an owner that holds nothing is not 'nobody holds anything': a query from a fresh owner must still see the other owners' locks")
-		c.ExpectAll("owners/"+short+"/each-lock", c.CallArgs(w.fn, gcall, 1), pat("p3[(phi(-1) + 1)]"), 1, "... for every requested lock type, in order", "")
+		c.ExpectAll("owners/"+short+"/each-lock", c.CallArgs(w.fn, gcall, 1), pat("p3[(phi(-1) + 1)]")+"|"+pat("phi(builtin.append(↺, [p3[(phi(-1) + 1)]])|nil)[(phi(-1) + 1)]"), 1, "... for every requested lock type, in order (or for an element of a list built from the requested lock types only)", "")
 		c.ExpectAll("owners/"+short+"/op", c.CallArgs(w.fn, p.PlainCalls(w.op), 0), pat("litefs.(*GuardSet).Guard(litefs.(*DB).CreateGuardSetIfNotExists(p0, p2), p3[(phi(-1) + 1)])"), 1, "... through "+w.op[strings.LastIndex(w.op, ".")+1:]+" of that guard", "")
 		c.GuardedPaths("owners/"+short+"/true-only-after-all", w.fn, func(in ssa.Instruction) bool {
 			r, ok := in.(*ssa.Return)
 			return ok && len(r.Results) > 0 && p.Render(returnedValue(r, 0)) == "true" && !(r.Block().Index != 0 && len(r.Block().Preds) == 0)
 		}, [][]*Guard{{G(`\(\(phi\(-1\) \+ 1\) < builtin\.len\(p3\)\)|\(.* < builtin\.len\(p3\)\)`, false)}}, 1, "... and answers true only after the loop over all requested locks completed", "")
 	}
+	c.atomicRangeRequests("atomic")
 	c.OnlyInScope("owners/nilable-lookup", []string{"litefs", "fuse", "http"}, p.Calls("litefs.(*DB).GuardSet"), []string{pat("litefs.(*DB).UnlockDatabase"), pat("litefs.(*DB).UnlockSHM"), pat("litefs.(*DB).Unlock")}, 3, "the nil-able lookup DB.GuardSet(owner) is used only by the three unlock entry points (unlocking for an owner without a guard set is a no-op)", "")
 	c.Expect("owners/create-returns-existing", joinS(c.returnsOf("litefs.(*DB).CreateGuardSetIfNotExists")), pat("@@"), "CreateGuardSetIfNotExists resolves", "")
 	c.Before("owners/create-under-mutex", "litefs.(*DB).CreateGuardSetIfNotExists", p.Writes("litefs.DB.guardSets.m[]", "litefs.DB.guardSets[]"), p.PlainCalls("sync.(*Mutex).Lock"), 0, "the owner table is updated under its mutex", "")
@@ -190,4 +192,101 @@ func (c *Ctx) returnsOfAll(fname string) []string {
 		return []string{""}
 	}
 	return out
+}
+
+// atomicRangeRequests: a lock request that covers several locks (one fcntl
+// byte range) is granted or refused as a whole - a refusal restores every guard
+// the call already changed (F49).
+func (c *Ctx) atomicRangeRequests(prefix string) {
+	p := c.P
+	gs0 := "litefs.(*DB).CreateGuardSetIfNotExists(p0, p2)"
+	guard := "litefs.(*GuardSet).Guard(" + gs0 + ", p3[(phi(-1) + 1)])"
+	state := "litefs.(*RWMutexGuard).State(" + guard + ")"
+	retFalse := func(in ssa.Instruction) bool {
+		r, ok := in.(*ssa.Return)
+		return ok && len(r.Results) > 0 && p.Render(returnedValue(r, 0)) == "false" && !(r.Block().Index != 0 && len(r.Block().Preds) == 0)
+	}
+	why := "POSIX refuses a byte-range request without changing anything; a partial grant keeps locks nobody was granted (spurious busy errors), a partial downgrade lets another owner share a lock its holder believes exclusive"
+
+	// ---- TryLocks ----
+	tl := "litefs.(*DB).TryLocks"
+	restore := p.PlainCalls("litefs.restoreGuards")
+	prev := "phi(builtin.append(↺, [" + state + "])|make([]litefs.RWMutexState, 0))"
+	c.Before(prefix+"/TryLocks/refusal-restores", tl, retFalse, restore, 2, "every refusal exit of TryLocks has called restoreGuards", why)
+	c.ExpectAll(prefix+"/TryLocks/restore-args", append(append(c.CallArgs(tl, restore, 0), c.CallArgs(tl, restore, 1)...), c.CallArgs(tl, restore, 2)...),
+		pat(gs0)+"|p3|"+pat(prev), 6, "restoreGuards receives the owner's guard set, the requested lock types and the list of states recorded by this call", "")
+	tryLock := p.PlainCalls("litefs.(*RWMutexGuard).TryLock")
+	stateCall := p.CallWhere("litefs.(*RWMutexGuard).State", regexp.QuoteMeta(guard))
+	c.Before(prefix+"/TryLocks/state-read-before-attempt", tl, tryLock, stateCall, 1, "the guard's state is read before the attempt that may change it", "the state restored must be the one before the call")
+	appendPrev := func(in ssa.Instruction) bool {
+		call, ok := in.(*ssa.Call)
+		if !ok {
+			return false
+		}
+		b, ok := call.Call.Value.(*ssa.Builtin)
+		return ok && b.Name() == "append" && strings.Contains(p.Render(call), "RWMutexGuard).State(")
+	}
+	c.Guarded(prefix+"/TryLocks/recorded-only-when-taken", tl, appendPrev, gs(G(`^`+regexp.QuoteMeta("litefs.(*RWMutexGuard).TryLock("+guard+")")+`$`, true)), 1,
+		"a state is recorded only for a guard this call has locked", "restoring a guard that was not taken would release a lock the owner held before the call")
+	c.AfterEdge(prefix+"/TryLocks/every-taken-guard-recorded", tl, G(`^`+regexp.QuoteMeta("litefs.(*RWMutexGuard).TryLock("+guard+")")+`$`, true), appendPrev, func(in ssa.Instruction) bool {
+		_, isRet := in.(*ssa.Return)
+		return isRet || tryLock(in)
+	}, 1, "every guard locked by this call is recorded before the next attempt or exit", "", G(`^`+regexp.QuoteMeta("litefs.(*RWMutexGuard).TryLock("+guard+")")+`$`, false))
+
+	// ---- restoreGuards ----
+	rg := "litefs.restoreGuards"
+	g1 := "litefs.(*GuardSet).Guard(p0, p1[(phi(-1) + 1)])"
+	c.ExpectAll(prefix+"/restore/guard-of-same-index", append(c.CallArgs(rg, p.PlainCalls("litefs.(*RWMutexGuard).Unlock"), 0), c.CallArgs(rg, p.PlainCalls("litefs.(*RWMutexGuard).TryRLock"), 0)...), pat(g1), 2,
+		"restoreGuards acts on the guard of the lock type at the index of the recorded state", "")
+	c.Guarded(prefix+"/restore/unlock-iff-was-unlocked", rg, p.PlainCalls("litefs.(*RWMutexGuard).Unlock"), gs(GP("(0 == p2[(phi(-1) + 1)])", true)), 1, "a guard is unlocked only when it was unlocked before the call", "")
+	c.Guarded(prefix+"/restore/downgrade-iff-was-shared", rg, p.PlainCalls("litefs.(*RWMutexGuard).TryRLock"), gs(GP("(1 == p2[(phi(-1) + 1)])", true)), 1, "a guard is downgraded to shared only when it was shared before the call", "")
+	c.AfterEdge(prefix+"/restore/was-unlocked-is-unlocked", rg, GP("(0 == p2[(phi(-1) + 1)])", true), p.PlainCalls("litefs.(*RWMutexGuard).Unlock"), func(in ssa.Instruction) bool {
+		_, isRet := in.(*ssa.Return)
+		return isRet || p.PlainCalls("litefs.(*GuardSet).Guard")(in)
+	}, 1, "every guard that was unlocked before the call is unlocked again", "")
+	c.AfterEdge(prefix+"/restore/was-shared-is-shared", rg, GP("(1 == p2[(phi(-1) + 1)])", true), p.PlainCalls("litefs.(*RWMutexGuard).TryRLock"), func(in ssa.Instruction) bool {
+		_, isRet := in.(*ssa.Return)
+		return isRet || p.PlainCalls("litefs.(*GuardSet).Guard")(in)
+	}, 1, "every guard that was shared before the call is downgraded again", "")
+	c.OnlyInScope(prefix+"/restore/callers", []string{"litefs", "fuse", "http"}, p.Calls(rg), []string{pat(tl)}, 2, "restoreGuards is called by TryLocks only", "")
+
+	// ---- TryRLocks ----
+	tr := "litefs.(*DB).TryRLocks"
+	isTryR := p.PlainCalls("litefs.(*RWMutexGuard).TryRLock")
+	refusable := func(in ssa.Instruction) bool {
+		call, ok := in.(*ssa.Call)
+		return ok && isTryR(in) && call.Referrers() != nil && len(*call.Referrers()) > 0
+	}
+	unconditional := func(in ssa.Instruction) bool {
+		call, ok := in.(*ssa.Call)
+		return ok && isTryR(in) && (call.Referrers() == nil || len(*call.Referrers()) == 0)
+	}
+	ownExcl := "(2 == " + state + ")"
+	c.Guarded(prefix+"/TryRLocks/refusable-step-skips-own-exclusive", tr, refusable, gs(GP(ownExcl, false)), 1,
+		"the attempt that can be refused is made only for locks the owner does not hold exclusively", why)
+	c.Guarded(prefix+"/TryRLocks/downgrade-only-own-exclusive", tr, unconditional, gs(GP(ownExcl, true)), 1, "the unconditional step is the downgrade of the owner's own exclusive lock (always granted)", "")
+	c.NoPath(prefix+"/TryRLocks/no-refusal-after-downgrade", tr, unconditional, Any(retFalse, refusable), 1,
+		"once an exclusive lock was downgraded the request can no longer be refused (no refusable attempt and no refusal exit follows)", why)
+	taken := "phi(builtin.append(↺, [p3[(phi(-1) + 1)]])|nil)"
+	c.Guarded(prefix+"/TryRLocks/refusal-after-release-loop", tr, retFalse, gs(G(`^\(\(phi\(-1\) \+ 1\) < builtin\.len\(`+regexp.QuoteMeta(taken)+`\)\)$`, false)), 1,
+		"the refusal exit is reached only through the loop over the locks newly taken by this call", "")
+	c.ExpectAll(prefix+"/TryRLocks/releases-newly-taken", c.CallArgs(tr, p.PlainCalls("litefs.(*RWMutexGuard).Unlock"), 0), pat("litefs.(*GuardSet).Guard("+gs0+", "+taken+"[(phi(-1) + 1)])"), 1,
+		"that loop unlocks the owner's guard of each such lock", "")
+	appendTaken := func(in ssa.Instruction) bool {
+		call, ok := in.(*ssa.Call)
+		if !ok {
+			return false
+		}
+		b, ok := call.Call.Value.(*ssa.Builtin)
+		return ok && b.Name() == "append"
+	}
+	c.Guarded(prefix+"/TryRLocks/newly-taken-means-was-unlocked", tr, appendTaken, gs(GP("(0 == "+state+")", true)), 1,
+		"a lock counts as newly taken only when it was unlocked before the attempt", "releasing a lock that was shared before the call would drop a lock the owner still relies on")
+	c.Guarded(prefix+"/TryRLocks/newly-taken-means-granted", tr, appendTaken, gs(G(`^`+regexp.QuoteMeta("litefs.(*RWMutexGuard).TryRLock("+guard+")")+`$`, true)), 1,
+		"... and the attempt succeeded", "")
+	c.AfterEdge(prefix+"/TryRLocks/every-newly-taken-recorded", tr, GP("(0 == "+state+")", true), appendTaken, func(in ssa.Instruction) bool {
+		_, isRet := in.(*ssa.Return)
+		return isRet || refusable(in)
+	}, 1, "every lock taken from the unlocked state is recorded before the next attempt or exit", "")
+	c.Before(prefix+"/TryRLocks/state-read-before-attempt", tr, refusable, p.CallWhere("litefs.(*RWMutexGuard).State", regexp.QuoteMeta(guard)), 1, "the guard's state is read before the attempt", "")
 }
